@@ -16,6 +16,8 @@ RULES = {
 def run(rep, repo, tier):
     for k, v in RULES.items():
         rep.rule(k, v)
+    from ..defined import check_defined
+    check_defined(rep, repo, 'C05.R2', [repo.method('Solver', '__init__'), repo.method('Solver', 'solve'), repo.method('Solver', 'get_results_short'), repo.method('Solver', 'get_results_long')], 'solver path')
     rep.assumptions += ['A1 well-formed instance', 'A3 PuLP semantics', 'A6 CBC exact',
                         'rows of `pairs` are sorted by student rank, ranks dense from 1 (discharged by C10.R1/C13)',
                         'q in lecturer_lists[k] <=> l(q)=k (discharged by C01.R4)']
